@@ -1,17 +1,18 @@
 #!/bin/bash
 # usage: tools/try_worktree.sh <worktree-with-a-change> <ID> [<ID>...]
 # Runs the quick checks against a scratch worktree of /repo WITHOUT touching /repo: a copy of the
-# framework under /tmp/vmut is pointed at the worktree (path dependencies rewritten). The copy and its
-# build output are scratch; remove /tmp/vmut when done.
+# framework under $V is pointed at the worktree (path dependencies rewritten). The copy and its
+# build output are scratch; remove $V when done.
 set -u
 wt="$1"; shift
-rm -rf /tmp/vmut/target; mkdir -p /tmp/vmut
-rsync -a --delete --exclude target --exclude .git --exclude .work --exclude replays --exclude evidence --exclude 'fuzz/target' --exclude seeded /verif/ /tmp/vmut/ --exclude /target
-mkdir -p /tmp/vmut/evidence
-sed -i "s#path = \"/repo/#path = \"$wt/#g" /tmp/vmut/harness/Cargo.toml
+V="${VMUT:-/tmp/vmut}"   # set VMUT=/tmp/vmut-<x> to test several worktrees in parallel
+rm -rf $V/target; mkdir -p $V
+rsync -a --delete --exclude target --exclude .git --exclude .work --exclude replays --exclude evidence --exclude 'fuzz/target' --exclude seeded /verif/ $V/ --exclude /target
+mkdir -p $V/evidence
+sed -i "s#path = \"/repo/#path = \"$wt/#g" $V/harness/Cargo.toml
 for id in "$@"; do
   t0=$(date +%s)
-  /tmp/vmut/check "$id" > /tmp/vmut.$id.out 2>&1; rc=$?
-  echo "$id exit=$rc violations=$(grep -c '^VIOLATION' /tmp/vmut.$id.out) secs=$(( $(date +%s) - t0 ))"
-  grep -m2 -E "violation detail|C05:|C10:|C11:" /tmp/vmut.$id.out | cut -c1-600
+  $V/check "$id" > $V.$id.out 2>&1; rc=$?
+  echo "$id exit=$rc violations=$(grep -c '^VIOLATION' $V.$id.out) secs=$(( $(date +%s) - t0 ))"
+  grep -m2 -E "violation detail|C05:|C10:|C11:" $V.$id.out | cut -c1-600
 done
